@@ -241,3 +241,134 @@ func (d *Dump) Equal(o *Dump) (bool, string) {
 	}
 	return true, ""
 }
+
+// DataSafe reports whether migrating a database that holds Populate's rows of schema a to schema b
+// MUST succeed, judged on the final pair (a walk of individually harmless edits can add up to a data
+// incompatible change). It is conservative: "false" only means that a failure of the plan on the data
+// would be legitimate (a new NOT NULL column without default, a unique key over defaulted values, a
+// foreign key over values that have no parent, a type change in a STRICT table, …).
+func DataSafe(a, b Schema) (bool, string) {
+	for bi := range b.Tables {
+		tb := &b.Tables[bi]
+		ta := a.Table(tb.Name)
+		if ta == nil {
+			continue // new table: empty
+		}
+		// cells that receive the default value: new columns and NULLs of columns turned NOT NULL
+		defaulted := map[string]bool{}
+		stable := map[string]bool{} // stored on both sides, values carried over unchanged
+		for _, c := range tb.Cols {
+			old := ta.Col(c.Name)
+			switch {
+			case old == nil:
+				if c.Gen == nil {
+					defaulted[c.Name] = true
+					if !c.Null && c.Default == nil {
+						return false, tb.Name + "." + c.Name + ": new NOT NULL column without default"
+					}
+				}
+			case c.Gen == nil:
+				if old.Null && !c.Null {
+					defaulted[c.Name] = true
+					if c.Default == nil {
+						return false, tb.Name + "." + c.Name + ": NULL -> NOT NULL without default"
+					}
+				}
+				if tb.Strict && Affinity(old.Type) != Affinity(c.Type) {
+					return false, tb.Name + "." + c.Name + ": type change in a STRICT table"
+				}
+				if tb.Strict && old.Gen != nil {
+					return false, tb.Name + "." + c.Name + ": generated -> stored in a STRICT table"
+				}
+				if old.Gen == nil && !defaulted[c.Name] {
+					stable[c.Name] = true
+				}
+			}
+		}
+		// unique keys need a column whose values are certainly distinct
+		keyOK := func(cols []string, pk bool) bool {
+			for _, cn := range cols {
+				if stable[cn] && (!pk || !ta.Col(cn).Null) {
+					return true
+				}
+			}
+			return false
+		}
+		if len(tb.PK) > 0 && !slices.Equal(ta.PK, tb.PK) && !keyOK(tb.PK, true) {
+			return false, tb.Name + ": primary key over values that need not be distinct"
+		}
+		if len(tb.PK) > 0 {
+			for _, cn := range tb.PK {
+				if defaulted[cn] && !keyOK(tb.PK, true) {
+					return false, tb.Name + ": primary key column " + cn + " receives defaults"
+				}
+			}
+		}
+		for _, i := range tb.Idx {
+			if !i.Unique {
+				continue
+			}
+			var cols []string
+			for _, p := range i.Parts {
+				if p.Col != "" {
+					cols = append(cols, p.Col)
+				}
+			}
+			if o := ta.Index(i.Name); o != nil && o.Unique && o.Where == i.Where && slices.Equal(o.Parts, i.Parts) {
+				same := true
+				for _, cn := range append(slices.Clone(cols), i.Refs...) {
+					same = same && stable[cn]
+				}
+				if same {
+					continue // the key held before and its inputs are carried over unchanged
+				}
+			}
+			if !keyOK(cols, false) {
+				return false, tb.Name + "." + i.Name + ": unique index over values that need not be distinct"
+			}
+		}
+		for _, f := range tb.FKs {
+			had := slices.ContainsFunc(ta.FKs, func(o FK) bool {
+				return o.RefTable == f.RefTable && slices.Equal(o.Cols, f.Cols) && slices.Equal(o.RefCols, f.RefCols)
+			})
+			if had {
+				pa, pb := a.Table(f.RefTable), b.Table(f.RefTable)
+				if pa == nil || pb == nil {
+					return false, tb.Name + "." + f.Name + ": parent table replaced"
+				}
+				for k, cn := range f.Cols {
+					oc, op, np := ta.Col(cn), pa.Col(f.RefCols[k]), pb.Col(f.RefCols[k])
+					if !stable[cn] && !(oc != nil && oc.Gen == nil && !defaulted[cn]) || op == nil || np == nil ||
+						Affinity(oc.Type) != Affinity(tb.Col(cn).Type) || Affinity(op.Type) != Affinity(np.Type) || op.Gen != nil || np.Gen != nil {
+						return false, tb.Name + "." + f.Name + ": key values change"
+					}
+					if old := pa.Col(f.RefCols[k]); old.Null && !np.Null {
+						return false, tb.Name + "." + f.Name + ": parent key receives defaults"
+					}
+				}
+				continue
+			}
+			for _, cn := range f.Cols {
+				c := tb.Col(cn)
+				if ta.Col(cn) != nil || c.Default != nil || c.Gen != nil {
+					return false, tb.Name + "." + f.Name + ": new foreign key over existing or defaulted values"
+				}
+			}
+		}
+		for _, k := range tb.Checks {
+			for _, r := range k.Refs {
+				c := tb.Col(r)
+				if c == nil || !defaulted[r] || c.Default == nil {
+					continue
+				}
+				if c.Default.Kind == "num" && (strings.HasPrefix(c.Default.V, "-") || strings.Trim(c.Default.V, "0.") == "") {
+					return false, tb.Name + ": check over a column that receives the default " + c.Default.V
+				}
+			}
+		}
+		// a NOT NULL generated column over inputs that can be NULL is rejected by Validate already
+	}
+	// rows of a parent must not vanish while children keep referencing it: Validate guarantees that a
+	// dropped table is not referenced by b.
+	return true, ""
+}
